@@ -16,7 +16,10 @@
       - string literals are the same bytes in [txt] and [min] (by construction of [evalue];
         token view: [CJ_erase_tokens])
       - [minify_spec min = min]                                    (minify_CJ_idempotent)
-      - at buffer level [cJSON_Minify (txt ++ [0])] leaves the C string [min]  (cJSON_Minify_CJ). *)
+      - at buffer level [cJSON_Minify (txt ++ [0])] leaves the C string [min]  (cJSON_Minify_CJ);
+        MinifyGrammarEntry.v composes this with the parser entry points on that buffer
+        (parse after Minify = parse before Minify).
+    Concrete instance with derivation and evaluation: MinifyGrammarExample.v. *)
 From CJ Require Import Base Dbl Tree LibcNum MinifyDefs MinifyProofs MinifyValue ParseDefs ParseSpec
   Grammar ParseComplete MinifyGrammarDefs.
 Local Open Scope Z_scope.
